@@ -17,7 +17,7 @@ open Classical
 noncomputable def rintR (v : ℝ) : ℝ :=
   let f := ⌊v⌋
   if v - f < 1 / 2 then f else if v - f > 1 / 2 then f + 1 else if Even f then f else f + 1
-noncomputable instance : Rint ℝ := ⟨rintR, fun v => (⌊v⌋ : ℝ)⟩
+noncomputable instance : Rint ℝ := ⟨rintR, fun v => (⌊v⌋ : ℝ), fun v => ⌊v⌋.toNat⟩
 
 @[simp] theorem Cmp.eq_real (a b : ℝ) : Cmp.eq a b = decide (a = b) := by
   unfold Cmp.eq
